@@ -276,6 +276,8 @@ class SimDevice:
             return               # some firmware simply ignores a handshake with an unknown token
         if kind == "error" or not token_ok:
             conn.send_stream(rc.v3_error_packet(), delay=delay)
+            if opts.get("then"):
+                conn.hang_up(opts["then"])
             return
         # genuine (optionally mutated through opts["mutate"](body) or under another key)
         nonce = self.next_nonce()
@@ -292,8 +294,12 @@ class SimDevice:
             pkt = pkt[:5] + bytes([(pkt[5] & 0xF0) | (opts["ptype"] & 0xF)]) + pkt[6:]
         if "padnibble" in opts:
             pkt = pkt[:5] + bytes([(pkt[5] & 0x0F) | ((opts["padnibble"] & 0xF) << 4)]) + pkt[6:]
+        if opts.get("trunc") is not None:
+            pkt = pkt[:opts["trunc"]]          # only the beginning of the reply makes it onto the wire
         conn.send_stream(pkt, delay=delay, cuts=opts.get("cuts"), gap=opts.get("gap", 0.0))
-        self.log.append(WireEvent(self.loop.time(), conn.id, "hs_reply", note=kind + (" mutated" if ("mutate" in opts or "key" in opts or "ptype" in opts or "padnibble" in opts) else "")))
+        if opts.get("then"):
+            conn.hang_up(opts["then"])         # ... and the unit hangs up behind it
+        self.log.append(WireEvent(self.loop.time(), conn.id, "hs_reply", note=kind + (" mutated" if ("mutate" in opts or "key" in opts or "ptype" in opts or "padnibble" in opts or opts.get("trunc") is not None) else "")))
 
     def _data(self, conn: DevConn, frame: bytes) -> None:
         action = None
